@@ -250,7 +250,7 @@ def identities(chk, mod, lib):
                 continue
             # degenerate / expansion regime: arguments must be (nearly) equal or zero there
             mx = z3.If(vs[0] >= vs[1], vs[0], vs[1])
-            wide = z3.Or(vs[0] - vs[1] > zr(Fr(1, 10 ** 3)) * mx, vs[1] - vs[0] > zr(Fr(1, 10 ** 3)) * mx)
+            wide = z3.Or(vs[0] - vs[1] > zr(Fr(1001, 10 ** 6)) * mx, vs[1] - vs[0] > zr(Fr(1001, 10 ** 6)) * mx)
             r2, m2 = chk.prove(tag + ':regime-extent', p.pc + [wide], family='expansion-vs-definition',
                                sample={'obligation': '%s: a regime other than the closed form is used only for '
                                        '|x-y| <= 1e-3 max(x,y)' % name})
